@@ -213,11 +213,12 @@ fn run(prefix: u8, segs: &[IgsSeg], alive: &[usize], rep: &Reporter) -> Run {
             bytes.clear();
             let seg = &segs[i];
             render_seg(seg, &mut sync, &mut bytes);
+            let steps_of_seg = loop_steps(seg);
             let sw = Stopwatch::start();
             let mut drain_sum = 0u64;
             let mut drain_max = 0u64;
             let mut hit_cap = false;
-            for b in &bytes {
+            for (bi, b) in bytes.iter().enumerate() {
                 let res = parser.print_char(&mut buf, 0, &mut caret, *b as char);
                 if seg.cmd != 0 && matches!(*b, b':' | b'@' | b',') {
                     match &res {
@@ -229,27 +230,39 @@ fn run(prefix: u8, segs: &[IgsSeg], alive: &[usize], rep: &Reporter) -> Run {
                 if res.is_err() {
                     out.errs += 1;
                 }
-                // a terminal drains the pending actions (loop steps) after every character
-                let mut n = 0;
-                loop {
-                    if n >= cap {
-                        // the loop outlives the cap: stop following it (it stays pending in the parser, as under a terminal that
-                        // stops polling), so that the segments behind it are judged on their own
-                        hit_cap = cap > 0;
-                        cap = 0;
-                        break;
+                // A terminal drains the pending actions (loop steps) after every character: poll until None. get_next_action
+                // answers None both when nothing is pending and when a loop step ended with an error (the loop then goes on at
+                // the next poll), so at the end of a loop segment it is polled once per step the document gives the loop (+2),
+                // whatever the answers: all steps of a loop happen inside its own segment.
+                let tolerant = bi + 1 == bytes.len() && steps_of_seg.is_some();
+                let polls = if !tolerant {
+                    cap
+                } else {
+                    match steps_of_seg {
+                        Some(Some(n)) => (n + 2).min(cap as u64) as u32,
+                        _ => cap,
                     }
+                };
+                let mut n = 0;
+                while n < polls {
                     let t0 = alloc::cpu_us();
                     let a = parser.get_next_action(&mut buf, &mut caret, 0);
                     let dt = alloc::cpu_us().saturating_sub(t0);
                     drain_sum += dt;
                     drain_max = drain_max.max(dt);
+                    n += 1;
                     match a {
-                        Some(_) => {
-                            n += 1;
-                            out.executed = true;
-                        }
-                        None => break,
+                        Some(_) => out.executed = true,
+                        None if !tolerant => break,
+                        None => {}
+                    }
+                }
+                if n == polls && polls > 0 {
+                    // all polls used: one more decides whether the loop is still producing actions. If so, stop following it (it
+                    // stays pending in the parser, as under a terminal that stops polling): the segments behind it are judged on their own
+                    if parser.get_next_action(&mut buf, &mut caret, 0).is_some() {
+                        hit_cap = true;
+                        cap = 0;
                     }
                 }
             }
@@ -634,6 +647,16 @@ pub fn case_strategy(max_segs: usize) -> BoxedStrategy<IgsCase> {
     (prop_oneof![3 => Just(0u8), 1 => Just(1u8)], vec(seg_strategy(), 1..=max_segs)).prop_map(|(prefix, segs)| IgsCase { prefix, segs }).boxed()
 }
 
+/// keep a loop inside its own segment: the declared count never exceeds the parameters that follow
+fn normalise(s: &mut IgsSeg) {
+    if let Some(lp) = s.lp.as_mut() {
+        let provided: usize = lp.groups.iter().map(|g| g.len()).sum();
+        if lp.count.parse::<usize>().map(|c| c > provided).unwrap_or(true) {
+            lp.count = provided.to_string();
+        }
+    }
+}
+
 pub fn minimize(c: &IgsCase) -> Vec<IgsCase> {
     let mut out = Vec::new();
     for i in 0..c.segs.len() {
@@ -651,6 +674,7 @@ pub fn minimize(c: &IgsCase) -> Vec<IgsCase> {
         let with = |f: &dyn Fn(&mut IgsSeg)| {
             let mut d = c.clone();
             f(&mut d.segs[i]);
+            normalise(&mut d.segs[i]);
             d
         };
         if s.gt {
